@@ -125,6 +125,8 @@ def encode(prog, shapes=None):
         elif op == "flip":
             s = f"flip~{a[0]}~{st['axis']}"
         elif op == "expand_dims":
+            if isinstance(st["axis"], list):
+                return None
             s = f"expand~{a[0]}~{st['axis']}"
         elif op == "cumsum":
             if st.get("method", "sequential") != "sequential":
